@@ -1,5 +1,115 @@
-/- Line-protocol driver for the C05 model (stub until the model exists). -/
-import ForML.Model.Sexp
-open ForML
+/- Line-protocol driver for the C05 model (ForML.Model.Fs, ForML.Model.Registry).
 
-def main : IO Unit := driverLoop (fun _ => .atom "no-model")
+  request   (run <impl> (<step> ...) <crash>)
+    impl    inplace | staged
+    step    (publish <dirProj> <name> <version> (file (<byte> ...)))
+            (publish <dirProj> <name> <version> (dir ((<i> (<byte> ...)) ...)))
+            (train <proj> <version> <ordinal> ((<sid> (<byte> ...)) ...))
+    crash   none | (<step index> <completed atomic micro-ops of that step> none|<bytes of the next append>)
+  answer    (ok (<outcome> ...) (<fact> ...))      outcomes of the fully executed steps, view of the final tree
+    outcome (ok (<call> ...)) | (err invalid|mismatch|os (<call> ...))      call = (<op> ...)
+    fact    (rel p v <node>) (member p v i <node>) (gen p v g (ok ord (sid ...))|corrupt) (state p v g sid <node>|missing)
+-/
+import ForML.Model.Sexp
+import ForML.Model.Fs
+import ForML.Model.Registry
+open ForML ForML.Fs ForML.Registry
+
+def bytes? (x : Sexp) : Option Bytes := x.natList?
+
+def member? : Sexp → Option (Nat × Bytes)
+  | .list [i, b] => do pure (← i.nat?, ← bytes? b)
+  | _ => none
+
+def pkg? : Sexp → Option Pkg
+  | .list [.atom "file", b] => (bytes? b).map Pkg.file
+  | .list [.atom "dir", .list ms] => (ms.mapM member?).map Pkg.dir
+  | _ => none
+
+def step? : Sexp → Option Step
+  | .list [.atom "publish", dp, n, v, pk] => do
+    pure (.publish (← dp.nat?) (← n.nat?) (← v.nat?) (← pkg? pk))
+  | .list [.atom "train", p, v, o, .list sts] => do
+    pure (.train (← p.nat?) (← v.nat?) (← o.nat?) (← sts.mapM member?))
+  | _ => none
+
+def impl? : Sexp → Option Impl
+  | .atom "inplace" => some .inplace
+  | .atom "staged" => some .staged
+  | _ => none
+
+def crash? : Sexp → Option (Option (Nat × Nat × Option Nat))
+  | .atom "none" => some none
+  | .list [i, k, .atom "none"] => do pure (some (← i.nat?, ← k.nat?, none))
+  | .list [i, k, c] => do pure (some (← i.nat?, ← k.nat?, some (← c.nat?)))
+  | _ => none
+
+def segS : Seg → Sexp
+  | .proj n => .list [.atom "proj", Sexp.ofNat n]
+  | .rel v => .list [.atom "rel", Sexp.ofNat v]
+  | .gen g => .list [.atom "gen", Sexp.ofNat g]
+  | .stage => .atom "stage"
+  | .pkg => .atom "pkg"
+  | .pkgTmp => .atom "pkgtmp"
+  | .tag => .atom "tag"
+  | .tagTmp => .atom "tagtmp"
+  | .state s => .list [.atom "state", Sexp.ofNat s]
+  | .member i => .list [.atom "member", Sexp.ofNat i]
+
+def pathS (p : Path) : Sexp := .list (p.map segS)
+
+def opS : Op → Sexp
+  | .mkdir p => .list [.atom "mkdir", pathS p]
+  | .createEmpty p => .list [.atom "create", pathS p]
+  | .append p b => .list [.atom "append", pathS p, Sexp.ofNats b]
+  | .rename p q => .list [.atom "rename", pathS p, pathS q]
+  | .copyFile p b => .list [.atom "copy", pathS p, Sexp.ofNats b]
+
+def errS : Err → Sexp
+  | .invalid => .atom "invalid"
+  | .mismatch => .atom "mismatch"
+  | .os => .atom "os"
+
+def outcomeS (o : Outcome) : Sexp :=
+  let calls := Sexp.list (o.calls.map (fun c => .list (c.map opS)))
+  match o.err with
+  | none => .list [.atom "ok", calls]
+  | some e => .list [.atom "err", errS e, calls]
+
+def nodeS : Option Node → Sexp
+  | none => .atom "missing"
+  | some .dir => .atom "dir"
+  | some (.file b) => .list [.atom "file", Sexp.ofNats b]
+
+def factsOf (fs : Fs) : List Sexp :=
+  (reader fs).flatMap (fun e => match e.1 with
+    | [.proj p, .rel v, .pkg] => [.list [.atom "rel", Sexp.ofNat p, Sexp.ofNat v, nodeS (some e.2)]]
+    | [.proj p, .rel v, .pkg, .member i] =>
+      [.list [.atom "member", Sexp.ofNat p, Sexp.ofNat v, Sexp.ofNat i, nodeS (some e.2)]]
+    | [.proj p, .rel v, .gen g, .tag] =>
+      match tagOf fs p v g with
+      | none => [.list [.atom "gen", Sexp.ofNat p, Sexp.ofNat v, Sexp.ofNat g, .atom "corrupt"]]
+      | some t =>
+        .list [.atom "gen", Sexp.ofNat p, Sexp.ofNat v, Sexp.ofNat g,
+               .list [.atom "ok", Sexp.ofNat t.ordinal, Sexp.ofNats t.sids]]
+        :: t.sids.map (fun s => .list [.atom "state", Sexp.ofNat p, Sexp.ofNat v, Sexp.ofNat g, Sexp.ofNat s,
+                                       nodeS (vis fs (stateP p v g s))])
+    | _ => [])
+
+def stepC05 : Sexp → Sexp
+  | .list [.atom "run", im, .list steps, cr] =>
+    match impl? im, steps.mapM step?, crash? cr with
+    | some impl, some steps, some none =>
+      let r := execAll impl Fs.empty steps
+      .list [.atom "ok", .list (r.2.map outcomeS), .list (factsOf r.1)]
+    | some impl, some steps, some (some (i, k, cut)) =>
+      match steps[i]? with
+      | none => .atom "bad-op"
+      | some s =>
+        let r := execAll impl Fs.empty (steps.take i)
+        let fs := crashIn impl r.1 s k cut
+        .list [.atom "ok", .list (r.2.map outcomeS), .list (factsOf fs)]
+    | _, _, _ => .atom "bad-op"
+  | _ => .atom "bad-op"
+
+def main : IO Unit := driverLoop stepC05
